@@ -48,7 +48,9 @@ def load_contracts(src):
     generic = {}
     for g in gens:
         if g.qual in LOOPS:
-            g.loops = {k: v for k, v in LOOPS[g.qual].items() if v.generic_ok}
+            # loop specifications written for a functional contract are used by the cross-cutting run only when marked usable
+            # there; the class-level specifications (contracts/classes.py CLASS_LOOPS) stay in force otherwise
+            g.loops = dict(g.loops or {}, **{k: v for k, v in LOOPS[g.qual].items() if v.generic_ok})
         generic[g.qual] = g
         contract.GENERIC[g.qual] = g
         contract.REGISTRY.setdefault(g.qual, g)      # call sites of classes without a functional contract use the generic one
